@@ -7,7 +7,7 @@
 From Coq Require Import NArith ZArith Arith List Bool Lia ZifyBool ZifyN.
 Import ListNotations.
 From LunaLib Require Import Netlist Bits Affine Machine PackN.
-From LunaModel Require Import Crc Crc_proofs Handshake Handshake_proofs Usb2DataRx_proofs Usb2DataTx Usb2DataTx_proofs TokenDet C20_TxPath.
+From LunaModel Require Import Crc Crc_proofs Handshake Handshake_proofs Usb2DataRx_proofs Usb2DataTx Usb2DataTx_proofs TokenDet TokenDet_proofs C20_TxPath.
 Open Scope N_scope.
 Ltac Zify.zify_post_hook ::= Z.div_mod_to_equations.
 
@@ -110,12 +110,12 @@ Qed.
 (* ============================================================================================== *)
 (* B. the transmit path                                                                             *)
 (* the repacked words carry tx_ready where the component models look for it *)
-Lemma b2n_lt2 : forall b, b2n b < 2. Proof. destruct b; cbn; lia. Qed.
+Lemma c20_b2n_lt2 : forall b, b2n b < 2. Proof. destruct b; cbn; lia. Qed.
 
 Lemma pi_hs_ready : forall i, g_ready (pi_hs_word i) = pi_ready i.
 Proof.
   intro i. unfold g_ready, pi_hs_word. rewrite rx_testbit_div.
-  pose proof (rx_bits_lt i 0 3) as B. change (2 ^ 3) with 8 in *. pose proof (b2n_lt2 (pi_ready i)).
+  pose proof (rx_bits_lt i 0 3) as B. change (2 ^ 3) with 8 in *. pose proof (c20_b2n_lt2 (pi_ready i)).
   replace ((bits i 0 3 + 8 * b2n (pi_ready i)) / 8) with (b2n (pi_ready i) + 2 * 0) by lia.
   apply rx_odd_b2n.
 Qed.
@@ -125,7 +125,7 @@ Proof.
   intro i. unfold tx_ready, pi_tx_word. rewrite rx_testbit_div.
   pose proof (rx_bits_lt i 3 2) as B1. pose proof (rx_bits_lt i 5 3) as B2. pose proof (rx_bits_lt i 8 8) as B3.
   unfold pi_dpid, pi_payload. change (2 ^ 2) with 4 in *. change (2 ^ 3) with 8 in *. change (2 ^ 8) with 256 in *.
-  change (2 ^ 13) with 8192. pose proof (b2n_lt2 (pi_ready i)).
+  change (2 ^ 13) with 8192. pose proof (c20_b2n_lt2 (pi_ready i)).
   replace ((bits i 3 2 + 4 * bits i 5 3 + 32 * bits i 8 8 + 8192 * b2n (pi_ready i)) / 8192) with (b2n (pi_ready i) + 2 * 0) by lia.
   apply rx_odd_b2n.
 Qed.
@@ -277,11 +277,11 @@ Proof.
       * unfold txp_rel, tx_part. cbn [p_hs p_core p_crc fst snd].
         split; [|split; [|split]].
         -- cbn [gen_rel g_tx]. reflexivity.
-        -- rewrite Hf in Hd'. cbn [crc_reg_next] in Hd'.
-           destruct (tx_svalid w); cbn [andb] in Hd' |- *; exact Hd'.
+        -- cbn [crc_reg_next] in Hd'. destruct (tx_svalid w); cbn [andb] in Hd' |- *; exact Hd'.
         -- exact Hw'.
         -- exact I.
-      * rewrite Dv, Dd, Dr. unfold txp_norm. cbn [po_valid po_data po_sready po_vrst po_vdata po_vhs]. reflexivity.
+      * rewrite Dv, Dd, Dr. unfold txp_norm. cbn [po_valid po_data po_sready po_vrst po_vdata po_vhs].
+        destruct (tx_svalid w); reflexivity.
     + (* CRC low byte *)
       split_env He. rewrite Hch, Hrx, mux3_data. no_hs_req Hhs. cbn [s_valid s_data crc_reg_next].
       destruct Hd as (Hf & Hc). cbn [t_core] in Hf. unfold txo_core in Ec. rewrite Hf in Ec.
@@ -290,7 +290,7 @@ Proof.
       * unfold txp_rel, tx_part. cbn [p_hs p_core p_crc fst snd].
         split; [|split; [|split]].
         -- cbn [gen_rel g_tx]. reflexivity.
-        -- rewrite Hf in Hd'. cbn [crc_reg_next andb] in Hd' |- *. exact Hd'.
+        -- cbn [crc_reg_next andb] in Hd' |- *. exact Hd'.
         -- exact Hw'.
         -- exact I.
       * rewrite Dv, Dd, Dr. unfold txp_norm. cbn [po_valid po_data po_sready po_vrst po_vdata po_vhs]. reflexivity.
@@ -302,8 +302,313 @@ Proof.
       * unfold txp_rel, tx_part. cbn [p_hs p_core p_crc fst snd].
         split; [|split; [|split]].
         -- cbn [gen_rel g_tx]. reflexivity.
-        -- rewrite Hf in Hd'. cbn [crc_reg_next andb] in Hd' |- *. exact Hd'.
+        -- cbn [crc_reg_next andb] in Hd' |- *. exact Hd'.
         -- exact Hw'.
         -- exact I.
       * rewrite Dv, Dd, Dr. unfold txp_norm. cbn [po_valid po_data po_sready po_vrst po_vdata po_vhs]. reflexivity.
+Qed.
+
+(* ---- trace level ---- *)
+Theorem txp_refines : forall tr s q, txp_rel s q -> tenv_ok txq_tstep txq_env q tr = true ->
+  map txp_norm (trun txp_tstep s tr) = trun txq_tstep q tr.
+Proof.
+  induction tr as [|i tr IH]; intros s q H He; [reflexivity|].
+  cbn [tenv_ok] in He. apply andb_true_iff in He as [He1 He2].
+  destruct (txp_rel_step s q i H He1) as [Hr Ho]. cbn [trun].
+  destruct (txp_tstep s i) as [s' o]. destruct (txq_tstep q i) as [q' o']. cbn [fst snd map] in *.
+  rewrite Ho. f_equal. apply IH; assumption.
+Qed.
+
+Corollary txp_from_reset : forall tr, tenv_ok txq_tstep txq_env txq_init tr = true ->
+  map txp_norm (trun txp_tstep txp_init tr) = trun txq_tstep txq_init tr.
+Proof. intros tr H. apply txp_refines; [apply txp_rel_init | exact H]. Qed.
+
+(* the specification never shows two source lines together *)
+Lemma txq_out_excl : forall q i, at_most_one (snd (txq_tstep q i)) = true.
+Proof.
+  intros [h d] i. unfold txq_tstep. destruct (txs_step d (pi_tx_word i)) as [d' od]. cbn [snd].
+  destruct h; [reflexivity|]. unfold at_most_one.
+  destruct d; cbn [po_vrst po_vdata po_vhs]; rewrite ?andb_false_r, ?andb_false_l; reflexivity.
+Qed.
+
+Lemma at_most_one_norm : forall o, at_most_one (txp_norm o) = at_most_one o.
+Proof. reflexivity. Qed.
+
+Lemma trun_length : forall {S O} (step : S -> N -> S * O) tr s, length (trun step s tr) = length tr.
+Proof. induction tr as [|i tr IH]; intros s; [reflexivity|]. cbn [trun]. destruct (step s i). cbn [length]. rewrite IH. reflexivity. Qed.
+
+Lemma forallb_trun_spec : forall tr q, forallb at_most_one (trun txq_tstep q tr) = true.
+Proof.
+  induction tr as [|i tr IH]; intros q; [reflexivity|]. cbn [trun].
+  pose proof (txq_out_excl q i) as E. destruct (txq_tstep q i) as [q' o]. cbn [snd forallb] in *. rewrite E, IH. reflexivity.
+Qed.
+
+(* under the request discipline the three sources of the multiplexer are never valid together *)
+Theorem txp_exclusive : forall tr, tenv_ok txq_tstep txq_env txq_init tr = true ->
+  forallb at_most_one (trun txp_tstep txp_init tr) = true.
+Proof.
+  intros tr H. pose proof (txp_from_reset tr H) as E. pose proof (forallb_trun_spec tr txq_init) as F.
+  rewrite <- E in F. rewrite forallb_forall in F |- *. intros o Ho.
+  rewrite <- at_most_one_norm. apply F. apply in_map. exact Ho.
+Qed.
+
+(* ---- every completed tx_valid run is a well-formed packet ---- *)
+Definition nochirp (tr : list N) : Prop := Forall (fun i => pi_chirp i = false) tr.
+
+Definition txs_good (d : txs_state) : Prop :=
+  match d with
+  | S_IDLE => True
+  | S_PID p _ => In p data_pid_bytes
+  | S_PAYLOAD p sent | S_CRC1 p sent | S_CRC2 p sent => In p data_pid_bytes /\ Forall (fun b => b < 256) sent
+  end.
+
+Lemma data_pid_lt : forall p, In p data_pid_bytes -> p < 256.
+Proof. intros p H. cbn in H. repeat (destruct H as [H|H]; [subst; lia|]). contradiction. Qed.
+
+Lemma txs_good_wf : forall d, txs_good d -> txs_wf d.
+Proof. intros d H. destruct d; cbn [txs_good txs_wf] in *; try exact I; apply data_pid_lt; tauto. Qed.
+
+Lemma tx_pid_byte_in : forall w, In (tx_pid_byte (tx_dpid w)) data_pid_bytes.
+Proof.
+  intro w. unfold tx_dpid. pose proof (rx_bits_lt w 0 2) as B. change (2 ^ 2) with 4 in B.
+  assert (bits w 0 2 = 0 \/ bits w 0 2 = 1 \/ bits w 0 2 = 2 \/ bits w 0 2 = 3) as [E|[E|[E|E]]] by lia;
+    rewrite E; cbn; tauto.
+Qed.
+
+Lemma txs_good_step : forall d w, txs_good d -> txs_good (fst (txs_step d w)).
+Proof.
+  intros d w H. pose proof (tx_pid_byte_in w) as P. pose proof (tx_payload_lt w) as L.
+  destruct d; cbn [txs_step fst txs_good] in *.
+  - destruct (tx_svalid w && tx_first w); [exact P|]. destruct (tx_svalid w && tx_last w); [exact P | exact I].
+  - destruct (tx_ready w); [destruct zlp; split; auto | exact H].
+  - destruct H as [Hp Hs].
+    assert (Forall (fun b => b < 256) (sent ++ [tx_payload w])) by (apply Forall_app; split; [exact Hs | constructor; [exact L | constructor]]).
+    destruct (tx_ready w && tx_svalid w); [destruct (tx_last w); split; auto|]. destruct (tx_ready w); split; auto.
+  - destruct (tx_ready w); exact H.
+  - destruct (tx_ready w); [exact I | exact H].
+Qed.
+
+Definition txw_inv (q : txq_state) (m : option (list N)) : Prop :=
+  if txq_idle q then m = None \/ exists l, m = Some l /\ wf_tx_packet l
+  else m = Some (txq_partial q) \/ (m = None /\ txq_partial q = []).
+
+Lemma wf_hs : forall x, wf_tx_packet [hs_byte x].
+Proof. intro x. left. exists x. reflexivity. Qed.
+
+Lemma wf_data : forall p sent, In p data_pid_bytes -> Forall (fun b => b < 256) sent ->
+  wf_tx_packet ((p :: sent ++ [crc16_usb sent mod 256]) ++ [crc16_usb sent / 256]).
+Proof.
+  intros p sent Hp Hs. right. exists p, sent. split; [exact Hp|]. split; [exact Hs|].
+  unfold tx_wire. cbn [app]. rewrite <- app_assoc. reflexivity.
+Qed.
+
+(* one cycle of the run splitter on the specification's output *)
+Ltac no_hs_req2 Hhs := unfold pi_hs_req in Hhs; cbv zeta in Hhs; cbn [gsp_step fst]; rewrite (no_hs_request _ Hhs).
+
+Ltac fin4 Hg' := split; [try (left; reflexivity) | split; [exact I | split; [exact Hg' | try exact I]]].
+
+Lemma txw_spec_step : forall q m i, txq_excl q -> txs_good (snd q) -> txw_inv q m ->
+  txq_env q i = true -> pi_chirp i = false ->
+  let o := snd (txq_tstep q i) in
+  let r := txw_step m (po_valid o) (pi_ready i) (po_data o) in
+  txw_inv (fst (txq_tstep q i)) (fst r) /\ txq_excl (fst (txq_tstep q i)) /\ txs_good (snd (fst (txq_tstep q i))) /\
+  match snd r with Some l => wf_tx_packet l | None => True end.
+Proof.
+  intros [h d] m i Hx Hg Hi He Hc. cbv zeta. cbn [snd] in Hg.
+  pose proof (txs_good_step d (pi_tx_word i) Hg) as Hg'.
+  pose proof (txs_out_fields d (pi_tx_word i) (txs_good_wf d Hg)) as (Fv & Fd & _). cbv zeta in Fv, Fd.
+  unfold txq_tstep. destruct (txs_step d (pi_tx_word i)) as [d' od] eqn:Es. cbn [fst snd] in *.
+  destruct h as [x|].
+  - (* handshake in flight *)
+    destruct d; cbn [txq_excl] in Hx; try contradiction.
+    cbn [txq_env] in He. apply andb_true_iff in He as [Hnd _]. apply negb_true_iff in Hnd.
+    unfold pi_data_req in Hnd. cbv zeta in Hnd. cbn [txs_step] in Es.
+    assert (d' = S_IDLE) as ->.
+    { destruct (tx_svalid (pi_tx_word i)), (tx_first (pi_tx_word i)), (tx_last (pi_tx_word i)); cbn in Hnd, Es; try discriminate; inversion Es; reflexivity. }
+    unfold gsp_step. cbn [fst po_valid po_data]. unfold txw_inv in *. cbn [txq_idle txq_partial] in *.
+    rewrite <- (pi_hs_ready i).
+    assert (Em : txw_step m true (g_ready (pi_hs_word i)) (hs_byte x)
+                 = (Some (if g_ready (pi_hs_word i) then [hs_byte x] else []), None)).
+    { destruct Hi as [->|[-> _]]; reflexivity. }
+    rewrite Em. cbn [fst snd].
+    destruct (g_ready (pi_hs_word i)); cbn [txq_idle txq_partial txq_excl]; repeat split; auto.
+    right. exists [hs_byte x]. split; [reflexivity | apply wf_hs].
+  - destruct d as [|p z|p sent|p sent|p sent].
+    + (* nothing in flight *)
+      cbn [txq_env] in He. apply negb_true_iff in He. cbn [po_valid po_data]. rewrite Hc.
+      unfold txw_inv in Hi. cbn [txq_idle] in Hi.
+      assert (Hq' : txq_idle (fst (gsp_step None (pi_hs_word i)), d') = false \/
+                    (fst (gsp_step None (pi_hs_word i)), d') = (None, S_IDLE)).
+      { cbn [gsp_step fst]. destruct (gen_request (pi_hs_word i)); [left; reflexivity|].
+        destruct d'; [right; reflexivity | left; reflexivity ..]. }
+      assert (Hp' : txq_partial (fst (gsp_step None (pi_hs_word i)), d') = []).
+      { cbn [gsp_step fst]. destruct (gen_request (pi_hs_word i)); [reflexivity|]. cbn [txq_partial].
+        cbn [txs_step] in Es. destruct (tx_svalid (pi_tx_word i) && tx_first (pi_tx_word i)); [inversion Es; reflexivity|].
+        destruct (tx_svalid (pi_tx_word i) && tx_last (pi_tx_word i)); inversion Es; reflexivity. }
+      assert (Hx' : txq_excl (fst (gsp_step None (pi_hs_word i)), d')).
+      { cbn [gsp_step fst]. unfold pi_hs_req, pi_data_req in He. cbv zeta in He. unfold gen_request.
+        cbn [txs_step] in Es.
+        destruct (g_stall (pi_hs_word i)), (g_nak (pi_hs_word i)), (g_ack (pi_hs_word i)); cbn [orb andb] in He |- *; try exact I;
+          destruct (tx_svalid (pi_tx_word i)), (tx_first (pi_tx_word i)), (tx_last (pi_tx_word i));
+          cbn [orb andb] in He, Es; try discriminate; inversion Es; exact I. }
+      split; [|split; [exact Hx' | split; [exact Hg'|]]].
+      * unfold txw_inv. destruct Hi as [->|[l [-> Hl]]]; cbn [txw_step fst].
+        -- destruct Hq' as [E|E]; rewrite ?E; [right; split; [reflexivity | exact Hp'] | cbn [txq_idle]; left; reflexivity].
+        -- destruct Hq' as [E|E]; rewrite ?E; [right; split; [reflexivity | exact Hp'] | cbn [txq_idle]; left; reflexivity].
+      * destruct Hi as [->|[l [-> Hl]]]; cbn [txw_step snd]; [exact I | exact Hl].
+    + (* PID byte offered *)
+      split_env He. no_hs_req2 Hhs. cbn [txs_env] in *.
+      cbn [po_valid po_data]. rewrite Fv, Fd, <- (pi_tx_ready i). cbn [txs_step] in Es.
+      unfold txw_inv in *. cbn [txq_idle txq_partial txs_partial] in *.
+      assert (Em : txw_step m true (tx_ready (pi_tx_word i)) p = (Some (if tx_ready (pi_tx_word i) then [p] else []), None)).
+      { destruct Hi as [->|[-> _]]; reflexivity. }
+      rewrite Em. cbn [fst snd].
+      destruct (tx_ready (pi_tx_word i)); [destruct z|]; inversion Es; subst d' od;
+        cbn [txq_idle txq_partial txs_partial txq_excl]; fin4 Hg'.
+    + (* payload *)
+      split_env He. no_hs_req2 Hhs. cbn [txs_env] in *.
+      cbn [po_valid po_data]. rewrite Fv, Fd, Henv, <- (pi_tx_ready i). cbn [txs_step] in Es. rewrite Henv, andb_true_r in Es.
+      unfold txw_inv in *. cbn [txq_idle txq_partial txs_partial] in *.
+      assert (Em : m = Some (p :: sent)) by (destruct Hi as [->|[_ ?]]; [reflexivity | discriminate]). subst m.
+      cbn [txw_step fst snd].
+      destruct (tx_ready (pi_tx_word i)); [destruct (tx_last (pi_tx_word i))|]; inversion Es; subst d' od;
+        cbn [txq_idle txq_partial txs_partial txq_excl app]; fin4 Hg'.
+    + (* CRC low *)
+      split_env He. no_hs_req2 Hhs. cbn [txs_env] in *.
+      cbn [po_valid po_data]. rewrite Fv, Fd, <- (pi_tx_ready i). cbn [txs_step] in Es.
+      unfold txw_inv in *. cbn [txq_idle txq_partial txs_partial] in *.
+      assert (Em : m = Some (p :: sent)) by (destruct Hi as [->|[_ ?]]; [reflexivity | discriminate]). subst m.
+      cbn [txw_step fst snd].
+      destruct (tx_ready (pi_tx_word i)); inversion Es; subst d' od;
+        cbn [txq_idle txq_partial txs_partial txq_excl app]; fin4 Hg'.
+    + (* CRC high *)
+      split_env He. no_hs_req2 Hhs. cbn [txs_env] in *.
+      cbn [po_valid po_data]. rewrite Fv, Fd, <- (pi_tx_ready i). cbn [txs_step] in Es.
+      unfold txw_inv in *. cbn [txq_idle txq_partial txs_partial] in *.
+      assert (Em : m = Some (p :: sent ++ [crc16_usb sent mod 256])) by (destruct Hi as [->|[_ ?]]; [reflexivity | discriminate]). subst m.
+      cbn [txw_step fst snd]. destruct Hg as [Hp Hs].
+      destruct (tx_ready (pi_tx_word i)); inversion Es; subst d' od;
+        cbn [txq_idle txq_partial txs_partial txq_excl app]; fin4 Hg'.
+      right. eexists. split; [reflexivity|]. apply (wf_data p sent Hp Hs).
+Qed.
+
+Lemma tx_runs_spec : forall tr q m, txq_excl q -> txs_good (snd q) -> txw_inv q m ->
+  tenv_ok txq_tstep txq_env q tr = true -> nochirp tr ->
+  Forall wf_tx_packet (tx_runs m (combine tr (trun txq_tstep q tr))).
+Proof.
+  induction tr as [|i tr IH]; intros q m Hx Hg Hi He Hc; [constructor|].
+  cbn [tenv_ok] in He. apply andb_true_iff in He as [He1 He2]. inversion Hc as [|? ? Hc1 Hc2]; subst.
+  pose proof (txw_spec_step q m i Hx Hg Hi He1 Hc1) as S. cbv zeta in S.
+  cbn [trun]. destruct (txq_tstep q i) as [q' o]. cbn [fst snd combine tx_runs] in *.
+  destruct (txw_step m (po_valid o) (pi_ready i) (po_data o)) as [m' fin]. cbn [fst snd] in S.
+  destruct S as (Hi' & Hx' & Hg' & Hf).
+  destruct fin as [l|]; [constructor; [exact Hf|]|]; apply IH; assumption.
+Qed.
+
+(* the run splitter reads tx_data only while tx_valid is high: normalisation does not matter *)
+Lemma tx_runs_norm : forall tr outs m, length outs = length tr ->
+  tx_runs m (combine tr (map txp_norm outs)) = tx_runs m (combine tr outs).
+Proof.
+  induction tr as [|i tr IH]; intros outs m Hl; [reflexivity|].
+  destruct outs as [|o outs]; [discriminate|]. cbn [map combine tx_runs].
+  assert (E : txw_step m (po_valid (txp_norm o)) (pi_ready i) (po_data (txp_norm o))
+              = txw_step m (po_valid o) (pi_ready i) (po_data o)).
+  { unfold txp_norm. cbn [po_valid po_data]. destruct (po_valid o) eqn:V; [reflexivity|]. destruct m; reflexivity. }
+  rewrite E. destruct (txw_step m (po_valid o) (pi_ready i) (po_data o)) as [m' fin].
+  cbn [length] in Hl. rewrite IH by lia. reflexivity.
+Qed.
+
+(* every completed maximal tx_valid run of the transmit-path MODEL, under the request discipline and outside reset
+   chirping, hands the PHY exactly one well-formed packet *)
+Theorem txp_runs_wellformed : forall tr, tenv_ok txq_tstep txq_env txq_init tr = true -> nochirp tr ->
+  Forall wf_tx_packet (tx_runs None (combine tr (trun txp_tstep txp_init tr))).
+Proof.
+  intros tr He Hc. rewrite <- tx_runs_norm by apply trun_length. rewrite (txp_from_reset tr He).
+  apply tx_runs_spec; try assumption; cbn; auto.
+Qed.
+
+(* ============================================================================================== *)
+(* C. the boolean checker decides the declarative predicate                                         *)
+Lemma c20_list_eqb_eq : forall a b, c20_list_eqb a b = true <-> a = b.
+Proof.
+  induction a as [|x a IH]; intros [|y b]; cbn; split; intro H; try reflexivity; try discriminate.
+  - apply andb_true_iff in H as [H1 H2]. apply N.eqb_eq in H1. apply IH in H2. subst. reflexivity.
+  - inversion H; subst. rewrite N.eqb_refl. cbn. apply IH. reflexivity.
+Qed.
+
+Lemma mem_N_In : forall x l, mem_N x l = true <-> In x l.
+Proof.
+  intros x l. unfold mem_N. rewrite existsb_exists. split.
+  - intros [y [Hy E]]. apply N.eqb_eq in E. subst. exact Hy.
+  - intro H. exists x. split; [exact H | apply N.eqb_refl].
+Qed.
+
+Lemma is_hs_packetb_spec : forall l, is_hs_packetb l = true <-> exists h, l = [hs_byte h].
+Proof.
+  intro l. split.
+  - destruct l as [|b [|c r]]; cbn [is_hs_packetb]; try discriminate. intro H.
+    apply existsb_exists in H as [h [_ E]]. apply N.eqb_eq in E. exists h. subst. reflexivity.
+  - intros [h ->]. cbn [is_hs_packetb]. apply existsb_exists. exists h. split; [destruct h; cbn; tauto | apply N.eqb_refl].
+Qed.
+
+Lemma is_data_packetb_wire : forall p payload, In p data_pid_bytes -> Forall (fun b => b < 256) payload ->
+  is_data_packetb (tx_wire p payload) = true.
+Proof.
+  intros p payload Hp Hb. unfold tx_wire, is_data_packetb.
+  set (tl2 := [crc16_usb payload mod 256; crc16_usb payload / 256]).
+  assert (Hl : length (payload ++ tl2) = (length payload + 2)%nat) by (rewrite app_length; reflexivity).
+  rewrite Hl. replace (length payload + 2 - 2)%nat with (length payload) by lia.
+  rewrite firstn_app, Nat.sub_diag, firstn_all. cbn [firstn]. rewrite app_nil_r.
+  rewrite skipn_app, Nat.sub_diag, skipn_all. cbn [skipn app].
+  apply andb_true_iff. split; [|apply c20_list_eqb_eq; reflexivity].
+  apply andb_true_iff. split; [|apply forallb_forall; intros b Hin; rewrite Forall_forall in Hb; apply N.ltb_lt, Hb, Hin].
+  apply andb_true_iff. split; [apply mem_N_In; exact Hp | apply Nat.leb_le; lia].
+Qed.
+
+Theorem wf_tx_packetb_spec : forall l, wf_tx_packetb l = true <-> wf_tx_packet l.
+Proof.
+  intro l. unfold wf_tx_packetb, wf_tx_packet. rewrite orb_true_iff, is_hs_packetb_spec. split.
+  - intros [H|H]; [left; exact H | right].
+    destruct l as [|p rest]; [discriminate|]. unfold is_data_packetb in H.
+    repeat (apply andb_true_iff in H as [H ?]).
+    apply mem_N_In in H. apply Nat.leb_le in H2. apply c20_list_eqb_eq in H0.
+    exists p, (firstn (length rest - 2) rest). split; [exact H|]. split.
+    + apply Forall_forall. intros b Hb. rewrite forallb_forall in H1. apply N.ltb_lt, H1, Hb.
+    + unfold tx_wire. f_equal. rewrite <- H0. symmetry. apply firstn_skipn.
+  - intros [H|(p & payload & Hp & Hb & ->)]; [left; exact H | right; apply is_data_packetb_wire; assumption].
+Qed.
+
+(* ---- the observer's state packing is faithful on well-formed states (the runtime oracle evaluates the typed
+        observer c20_wire_step through it) ---- *)
+Definition w_wf (s : wstate) : Prop :=
+  w_wait s < 65536 /\
+  match w_ph s with
+  | W_IDLE => True
+  | W_RX l => Forall (fun b => b < 256) l
+  | W_TX l src => Forall (fun b => b < 256) l /\ src < 8
+  end.
+
+Lemma w_dec_enc : forall s, w_wf s -> w_dec (w_enc s) = s.
+Proof.
+  intros [ph c e w] [Hw Hp]. cbn [w_ph w_credit w_expect w_wait] in *. unfold w_dec, w_enc.
+  cbn [w_ph w_credit w_expect w_wait].
+  set (r := match ph with W_IDLE => 0 | W_RX l => 1 + 4 * bytes_enc l | W_TX l src => 2 + 4 * (src mod 8 + 8 * bytes_enc l) end).
+  pose proof (c20_b2n_lt2 c) as Bc. pose proof (c20_b2n_lt2 e) as Be.
+  rewrite (N.mod_small w 65536) by exact Hw.
+  assert (E1 : N.odd (b2n c + 2 * b2n e + 4 * w + 262144 * r) = c).
+  { replace (b2n c + 2 * b2n e + 4 * w + 262144 * r) with (b2n c + 2 * (b2n e + 2 * w + 131072 * r)) by lia. apply rx_odd_b2n. }
+  assert (E2 : N.odd ((b2n c + 2 * b2n e + 4 * w + 262144 * r) / 2) = e).
+  { replace ((b2n c + 2 * b2n e + 4 * w + 262144 * r) / 2) with (b2n e + 2 * (w + 65536 * r)) by lia. apply rx_odd_b2n. }
+  assert (E3 : ((b2n c + 2 * b2n e + 4 * w + 262144 * r) / 4) mod 65536 = w) by lia.
+  assert (E4 : (b2n c + 2 * b2n e + 4 * w + 262144 * r) / 262144 = r) by lia.
+  rewrite E1, E2, E3, E4. f_equal. subst r.
+  destruct ph as [|l|l src].
+  - reflexivity.
+  - replace ((1 + 4 * bytes_enc l) mod 4) with 1 by lia.
+    replace ((1 + 4 * bytes_enc l) / 4) with (bytes_enc l) by lia. rewrite bytes_dec_enc by exact Hp. reflexivity.
+  - destruct Hp as [Hl Hs]. rewrite (N.mod_small src 8) by exact Hs.
+    replace ((2 + 4 * (src + 8 * bytes_enc l)) mod 4) with 2 by lia.
+    replace ((2 + 4 * (src + 8 * bytes_enc l)) / 4 / 8) with (bytes_enc l) by lia.
+    replace (((2 + 4 * (src + 8 * bytes_enc l)) / 4) mod 8) with src by lia.
+    rewrite bytes_dec_enc by exact Hl. reflexivity.
 Qed.
